@@ -155,7 +155,12 @@ def build_harness(variant="asan"):
 def lake_build(targets):
     """returns (ok, output)"""
     t0 = time.time()
-    p = run(["lake", "build"] + list(targets), cwd=LEAN)
+    # checks may run side by side: two lake processes building the same target race on the output files, so builds are serialised
+    import fcntl
+    os.makedirs(os.path.join(LEAN, ".lake"), exist_ok=True)
+    with open(os.path.join(LEAN, ".lake", "verif-build.lock"), "w") as lk:
+        fcntl.flock(lk, fcntl.LOCK_EX)
+        p = run(["lake", "build"] + list(targets), cwd=LEAN)
     out = p.stdout + p.stderr
     log("[lean] lake build %s: %s in %.1fs" % (" ".join(targets), "ok" if p.returncode == 0 else "FAILED", time.time() - t0))
     return p.returncode == 0, out
